@@ -1132,6 +1132,10 @@ fn forms() -> Vec<Form> {
         form!("now-samplerate", "", "now * 2.0 + samplerate"),
         form!("block", "", "{ %a + 1.0 }"),
         form!("block-nested", "", "{ let u = { let w = %a\n w + 1.0 }\n { u * 2.0 } }"),
+        // lexical scope of a block: the inner binding must not shadow the outer one afterwards
+        form!("block-shadowing", "", "{ let u = %a\n let w = { let u = %b * 10.0\n u * 2.0 }\n w + u }"),
+        form!("block-shadowing-lambda", "", "{ let u = %a\n let w = (|q| { let u = q * 10.0\n u * 2.0 })(%b)\n w + u * 1000.0 }"),
+        form!("block-shadowing-twice", "", "{ let u = %a\n let w = { let u = %b\n { let u = 7.0\n u } + u }\n w * 100.0 + u }"),
         form!("match-int", "", "match (%a - %a + 1.0) { 0 => 100.0, 1 => 200.0 + %b, _ => 300.0 }"),
         form!("match-enum", "type C9E = One(float) | Two(float)\n", "match One(%a) { One(v) => v * 2.0, Two(v) => 0.0 - v } + match Two(%b) { One(v) => v, Two(v) => v * 3.0 }"),
         form!("match-enum-unit", "type C9D = Up | Down\n", "match Down { Up => { %a }, Down => { %b } }"),
@@ -1300,6 +1304,17 @@ fn form_case(f: &Form, ctx: &str, n: usize, input_seed: u64) -> SCase {
 /// (name, staged, expansion written by hand)
 fn fixtures() -> Vec<(&'static str, &'static str, &'static str)> {
     vec![
+        // lifted aggregates: every digit of the result is one lifted number
+        (
+            "lift-array-of-nested-tuples",
+            "#stage(macro)\nfn mk(){\n  let t = [((1.0, 2.0), 3.0), ((4.0, 5.0), 6.0)]\n  lift(t)\n}\n#stage(main)\nfn dsp(){\n  let t = mk!()\n  let (a, b) = t[0]\n  let (c, d) = t[1]\n  let (a0, a1) = a\n  let (c0, c1) = c\n  a0 + a1*10.0 + b*100.0 + c0*1000.0 + c1*10000.0 + d*100000.0\n}\n",
+            "fn dsp(){\n  let t = [((1.0, 2.0), 3.0), ((4.0, 5.0), 6.0)]\n  let (a, b) = t[0]\n  let (c, d) = t[1]\n  let (a0, a1) = a\n  let (c0, c1) = c\n  a0 + a1*10.0 + b*100.0 + c0*1000.0 + c1*10000.0 + d*100000.0\n}\n",
+        ),
+        (
+            "lift-array-of-wide-then-narrow-tuples",
+            "#stage(macro)\nfn mk(){\n  let t = [((1.0, 2.0, 3.0), 4.0, (5.0, 6.0)), ((7.0, 8.0, 9.0), 1.5, (2.5, 3.5))]\n  lift(t)\n}\n#stage(main)\nfn dsp(){\n  let t = mk!()\n  let (a, b, c) = t[0]\n  let (d, e, f) = t[1]\n  a.0 + a.1*2.0 + a.2*3.0 + b*5.0 + c.0*7.0 + c.1*11.0 + d.0*13.0 + d.1*17.0 + d.2*19.0 + e*23.0 + f.0*29.0 + f.1*31.0\n}\n",
+            "fn dsp(){\n  let t = [((1.0, 2.0, 3.0), 4.0, (5.0, 6.0)), ((7.0, 8.0, 9.0), 1.5, (2.5, 3.5))]\n  let (a, b, c) = t[0]\n  let (d, e, f) = t[1]\n  a.0 + a.1*2.0 + a.2*3.0 + b*5.0 + c.0*7.0 + c.1*11.0 + d.0*13.0 + d.1*17.0 + d.2*19.0 + e*23.0 + f.0*29.0 + f.1*31.0\n}\n",
+        ),
         (
             "genpower-numeric-recursion",
             "#stage(macro)\nfn genpower(n:float){\n  letrec aux = |n:float,x| {\n    if (n>1){\n      `{ $x * $(aux(n-1,x)) }\n    }else{\n      x\n    }\n  }\n  `{|x:float| $(aux(n,`x))}\n}\nlet k = 3\n#stage(main)\nfn dsp(c9in:float) {\n  genpower!(k)(c9in + 2.0) + genpower!(1)(c9in)\n}\n",
